@@ -237,6 +237,9 @@ type gen struct {
 	excl  map[string]int
 	sc    *scope // body under construction (nil at package level)
 
+	rng     uint64 // state of the decision stream
+	pkgSeed uint64
+
 	noBlankTP bool // the method under construction mentions the receiver's type parameters
 
 	heavy       bool // the package may import the standard packages with large dependency graphs
@@ -264,16 +267,39 @@ func (g *gen) include(sig string) bool {
 	return false
 }
 
-func (g *gen) intn(lo, hi int, label string) int { return rapid.IntRange(lo, hi).Draw(g.t, label) }
-func (g *gen) flip(label string) bool            { return rapid.Bool().Draw(g.t, label) }
-
-// chance is true with probability about pct percent.
-func (g *gen) chance(pct int, label string) bool {
-	return rapid.IntRange(0, 99).Draw(g.t, label) < pct
+// rapid's integer generators favour small values and the ends of a range
+// (IntRange(0, 99) is below 10 in about 40% of the draws), which is what one
+// wants for test data but not for weighted choices. The generator therefore
+// takes its decisions from a splitmix64 stream that is re-seeded, for every
+// unit, with a value drawn from rapid: the rapid draws remain the only source
+// of randomness, and the choices are uniform.
+func (g *gen) next() uint64 {
+	g.rng += 0x9E3779B97F4A7C15
+	z := g.rng
+	z = (z ^ (z >> 30)) * 0xBF58476D1CE4E5B9
+	z = (z ^ (z >> 27)) * 0x94D049BB133111EB
+	return z ^ (z >> 31)
 }
 
-func pick[T any](g *gen, label string, xs ...T) T {
-	return xs[rapid.IntRange(0, len(xs)-1).Draw(g.t, label)]
+func (g *gen) intn(lo, hi int, label string) int {
+	if hi <= lo {
+		return lo
+	}
+	return lo + int(g.next()%uint64(hi-lo+1))
+}
+
+func (g *gen) flip(label string) bool { return g.next()&1 == 1 }
+
+// chance is true with probability pct percent.
+func (g *gen) chance(pct int, label string) bool { return int(g.next()%100) < pct }
+
+func pick[T any](g *gen, label string, xs ...T) T { return xs[g.next()%uint64(len(xs))] }
+
+// reseed starts the decision stream of the next unit.
+func (g *gen) reseed() {
+	s := rapid.Uint64().Draw(g.t, "unit_seed")
+	g.rng = g.pkgSeed ^ (s * 0xD6E8FEB86659FD93) ^ uint64(len(g.units))<<48
+	g.next()
 }
 
 func (g *gen) feat(fs ...string) {
